@@ -12,7 +12,8 @@ PID = "C05"
 RULE = (
     "case = (mode, TimePoint kwargs with hour < 24, nominal duration kwargs "
     "(years and/or months of either sign, optionally mixed with an exact "
-    "part), route p+d | d+p | p-d | add_months(n)). Starting days are biased "
+    "part of the same sign, or of the opposite sign and of the nominal "
+    "part's rough length +-1 day), route p+d | d+p | p-d | add_months(n)). Starting days are biased "
     "to every month end, 29 Feb, day 365/366 and week 52/53. Oracle = the "
     "statement's semantics written on vlib.refcal: exact part first, then n "
     "single-month steps on the calendar form each clamping to the target "
@@ -191,6 +192,18 @@ def st_case(draw):
                            st.integers(-50, 50)))
         return {"mode": mode, "p": kw, "d": {"months": n}, "route": route}
     dkw = draw(G.st_nominal_kw())
+    if draw(st.integers(0, 7)) == 0:
+        # opposite signs: an exact part that cancels the nominal part's rough
+        # length (a year as the mode's common year, a month as 30 days), or
+        # misses it by a day
+        dkw = draw(G.st_nominal_kw(max_years=3, max_months=14))
+        rough = dkw.get("years", 0) * R.ylen(cm, 2001) + dkw.get("months", 0) * 30
+        back = -rough + draw(st.sampled_from([0, 0, 0, 1, -1]))
+        if draw(st.booleans()):
+            dkw["days"] = back
+        else:
+            dkw["days"], dkw["hours"] = back + 1, -24
+        return {"mode": mode, "p": kw, "d": dkw, "route": route}
     if draw(st.sampled_from([False, False, True])):
         dkw.update(draw(G.st_exact_duration_kw(
             max_days=draw(st.sampled_from([3, 40, 800])),
